@@ -10,6 +10,9 @@
                 handed to the runner, in order   (front_run: Front.report_of through Front.report_view; the
                 category is printed by Gen.Category.display, id and name are the numbers given on the line)
      user_ids : FileLibrary::user_inputs as built by Front.user_ids   (front_run)
+     canon_idempotent, dirs_revisited : the two decidable premises of C02's theorems about a run, evaluated on the
+                project (Includes.canon_idempotent_b; Includes.dirs_revisited_b = Includes.dirs_revisited with
+                Includes.dir_fuel, the dfuel of run_project: true iff FileStack::new skipped a directory it had met before)
 
    `model_front classes` prints Spec.NoSilentSpec.class_table, one line per failure class:
      <class> <producer> <derivation> <shape>     (constructor names)
@@ -124,12 +127,13 @@ let show_full (((level, id), name), pfiles) =
 let run_with extra (d, argv, libs, pf_id, pf_name) =
   match Includes.run_project false d argv libs, Front.front_run pf_id pf_name d argv libs with
   | Ok s, Ok (full, users) ->
-    Printf.sprintf "{\"status\": \"ok\", \"files\": [%s], \"reports\": [%s], \"full\": [%s], \"user_ids\": %s, \"canon_idempotent\": %b%s}"
+    Printf.sprintf "{\"status\": \"ok\", \"files\": [%s], \"reports\": [%s], \"full\": [%s], \"user_ids\": %s, \"canon_idempotent\": %b, \"dirs_revisited\": %b%s}"
       (Stdlib.String.concat ", " (Stdlib.List.map (fun (p, u) -> Printf.sprintf "[%s, %b]" (q p) u) s.Includes.ps_files))
       (Stdlib.String.concat ", " (Stdlib.List.map show_report s.Includes.ps_reports))
       (Stdlib.String.concat ", " (Stdlib.List.map show_full full))
       (zs users)
       (Includes.canon_idempotent_b d)
+      (Includes.dirs_revisited_b d argv libs)
       (extra ())
   | Panic _, _ | _, Panic _ -> "{\"status\": \"panic\"}"
   | OutOfFuel, _ | _, OutOfFuel -> "{\"status\": \"outoffuel\"}"
